@@ -424,17 +424,15 @@ def build_replay():
     rdir = os.path.join(VERIF, "replay")
     # the crate depends on chumsky by path; VERIF_REPO lets self-tests point it at a scratch copy
     manifest = open(os.path.join(rdir, "Cargo.toml.in")).read().replace("@REPO@", REPO)
-    open(os.path.join(rdir, "Cargo.toml"), "w").write(manifest)
-    if os.path.exists(os.path.join(REPO, "Cargo.lock")) and not os.path.exists(os.path.join(rdir, "Cargo.lock")):
-        pass
     tdir = os.path.join(WORK, "replay-target")
     if SCRATCH:
-        # private copy of the tiny driver crate so that parallel self-tests do not share a manifest
+        # private copy of the tiny driver crate so that self-tests against a scratch copy of the repository
+        # neither share a manifest with each other nor touch /verif/replay
         rdir2 = os.path.join(WORK, "replay-crate")
         shutil.rmtree(rdir2, ignore_errors=True)
-        shutil.copytree(rdir, rdir2, ignore=shutil.ignore_patterns("target", "Cargo.lock"))
+        shutil.copytree(rdir, rdir2, ignore=shutil.ignore_patterns("target", "Cargo.lock", "Cargo.toml"))
         rdir = rdir2
-        open(os.path.join(rdir, "Cargo.toml"), "w").write(manifest)
+    open(os.path.join(rdir, "Cargo.toml"), "w").write(manifest)
     p = subprocess.run(["cargo", "build", "--offline", "--target-dir", tdir], cwd=rdir, env=env,
                        stdout=subprocess.PIPE, stderr=subprocess.STDOUT, text=True)
     if p.returncode != 0:
